@@ -4,7 +4,7 @@
    parse_chunk), for EVERY inflater behaviour [zinf] (the inflater is a section parameter: nothing about it is
    assumed), every well-formed state and every byte buffer.  The Reader-level loops (read_decoder.rs, mod.rs)
    are covered by the step counters of the correspondence harness, not by this theorem. *)
-From PngV Require Import Base.Bytes Base.Crc Gen.GenStream Model.Stream Proofs.StreamProofs.
+From PngV Require Import Base.Bytes Base.Crc Gen.GenStream Model.Stream Model.StreamRun Proofs.StreamProofs Proofs.StreamSplit Proofs.StreamWhole.
 
 (* One update call: the loop of at most 2*|buf|+8 transitions that the model supplies is never exhausted (in fact
    2*|buf|+3 suffice: the measure 2*bytes_left + rank(state) strictly decreases on every silent transition);
@@ -40,6 +40,25 @@ Proof. exact poisoned_is_absorbing. Qed.
 Theorem C07_initial_states_wf : forall o l s, wf' (init_state o l) /\ wf' (reset_model s).
 Proof. intros o l s. exact (conj (init_state_wf o l) (reset_model_wf s)). Qed.
 
+(* THE LINEAR BOUND on transitions (events included, not only the silent ones): every transition on a non-empty buffer either consumes a byte
+   or lowers the rank of the control state (rank <= 4), so it lowers 5*bytes_left + rank; a buffer of L bytes is therefore used up - or an error /
+   the end of the image reached - after at most 5*L + 4 transitions of the machine, for every inflater behaviour *)
+Theorem C07_every_transition_lowers_linear_measure :
+  forall zinf zall utf8_valid (s : dstate) (buf : list Z) (s' : dstate) (n : nat) (e : event) (a : list Z),
+    good4 s -> buf <> [] -> next_state zinf zall utf8_valid s buf = (s', Ok (n, e, a)) ->
+    (mu s' (skipn n buf) < mu s buf)%nat /\ inv4 s'.
+Proof. exact mu_step. Qed.
+
+(* the caller's loop (offer the rest of the buffer again after every event; Model/StreamRun.v feed, budget 5*L+8 update calls per buffer of L bytes)
+   never runs out of budget, for every input, every way of cutting it into buffers and every inflater behaviour *)
+Theorem C07_driver_loop_terminates_within_linear_budget :
+  forall zinf zall utf8_valid (s : dstate) (ps : list (list Z)),
+    good4 s -> Forall bytes_ok ps -> snd (feed zinf zall utf8_valid s ps) <> RFuel.
+Proof. exact feed_never_out_of_fuel. Qed.
+
+Theorem C07_initial_state_meets_the_premise : forall o l, good4 (init_state o l).
+Proof. exact good4_init. Qed.
+
 (* ---- non-vacuity: a real header prefix fed to the initial state, with an inflater that never produces anything *)
 Example C07_nonvacuous :
   let zinf := fun (_ : bool) (_ : list Z) => (@nil Z, DNeedMore) in
@@ -52,3 +71,6 @@ Print Assumptions C07_update_terminates_and_progresses.
 Print Assumptions C07_silent_step_decreases_measure.
 Print Assumptions C07_poisoned_returns_at_once.
 Print Assumptions C07_initial_states_wf.
+Print Assumptions C07_every_transition_lowers_linear_measure.
+Print Assumptions C07_driver_loop_terminates_within_linear_budget.
+Print Assumptions C07_initial_state_meets_the_premise.
